@@ -48,7 +48,8 @@ def run(tier, seed):
             sentinels = {}
             for rel, kind, payload in nodes:
                 if kind == "f" and b"SENTINEL" in payload[:12]:
-                    sentinels[payload.decode("utf-8", "replace")] = os.path.join(real_tmp, rel)
+                    tm = fstree.text_mode(payload)
+                    sentinels[tm if tm is not None else payload.decode("utf-8", "replace")] = os.path.join(real_tmp, rel)
             for listing in (False, True):
                 # index file names: the default pair, or a configured list (pathlib joins each name to the directory: slashes
                 # separate components, an absolute name replaces the directory; an over-long name makes is_file() raise)
